@@ -10,6 +10,7 @@ import polars as pl
 from pandera.api.base.types import CheckList
 from pandera.api.dataframe.components import ComponentSchema
 from pandera.api.polars.types import PolarsCheckObjects, PolarsDtypeInputTypes
+from pandera.api.polars.utils import get_validation_depth
 from pandera.backends.polars.register import register_polars_backends
 from pandera.config import config_context, get_config_context
 from pandera.engines import polars_engine
@@ -143,13 +144,10 @@ class Column(ComponentSchema[PolarsCheckObjects]):
             return check_obj
 
         is_dataframe = isinstance(check_obj, pl.DataFrame)
+        with config_context(validation_depth=get_validation_depth(check_obj)):
+            if is_dataframe:
+                check_obj = check_obj.lazy()
 
-        if is_dataframe:
-            check_obj = check_obj.lazy()
-
-        config_ctx = get_config_context(validation_depth_default=None)
-        validation_depth = config_ctx.validation_depth
-        with config_context(validation_depth=validation_depth):
             output = self.get_backend(check_obj).validate(
                 check_obj,
                 self,
@@ -160,6 +158,10 @@ class Column(ComponentSchema[PolarsCheckObjects]):
                 lazy=lazy,
                 inplace=inplace,
             )
+
+        if is_dataframe:
+            output = output.collect()
+
         return output
 
     @property
